@@ -130,6 +130,16 @@ func TestRegressions(tt *testing.T) {
 		&payload.ProducerInfo{OwnerKey: []byte{}, NodePublicKey: pubKeys[3], NickName: "n", Url: "u", NetAddress: "a", StakeUntil: height + 100}, nil,
 		in(coin), []*ctypes.Output{plainOut(to, coin.Value-fee, ctypes.TxVersion09)}, 0, prog))
 
+	// return-deposit output naming the genesis asset registration (a ledger
+	// transaction without inputs) as the deposit transaction
+	addr, _ := to.ToAddress()
+	run("return-sidechain-deposit-of-inputless-tx", functions.CreateTransaction(ctypes.TxVersion09, ctypes.ReturnSideChainDepositCoin, 0,
+		&payload.ReturnSideChainDepositCoin{}, nil, in(coin), []*ctypes.Output{
+			plainOut(to, coin.Value-fee-10, ctypes.TxVersion09),
+			{AssetID: core.ELAAssetID, Value: 10, ProgramHash: to, Type: ctypes.OTReturnSideChainDepositCoin,
+				Payload: &outputpayload.ReturnSideChainDeposit{GenesisBlockAddress: addr, DepositTransactionHash: core.ELAAssetID}},
+		}, 0, prog))
+
 	// schnorr withdraw with a signer index one past the arbiter list
 	signers := []uint8{0, 1, 2, 3, 4, 5, 6, 7, 8}
 	signers[8] = uint8(len(tn.Arbiters.GetCrossChainArbiters()))
